@@ -38,6 +38,8 @@ cdef class TaskScheduler(object):
 
     cpdef int wait_for(self, async_task.AsyncTask task) except -1
     cdef int _execute(self, async_task.AsyncTask root_task) except -1
+    @cython.locals(task=async_task.AsyncTask)
+    cdef _abandon_tasks(self, int first)
 
     cdef _schedule_batch(self, batching.BatchBase batch)
     cdef int _flush_batch(self, batching.BatchBase batch) except -1
